@@ -130,6 +130,16 @@ def address_map_part(rep):
     return n
 
 
+def sample_case(fam, table, sid, own_hex, seed):
+    t = [x for x in all_tables() if x.family == fam and x.name == table][0]
+    s = [x for x in t.sensors if x.id_ == sid][0]
+    resp = t.response(bytes(context(t.nbytes, seed, 0)))
+    poke(resp, t.byte_pos(s), bytes.fromhex(own_hex))
+    got = read_outcome(s, resp)
+    return dict(table=f'{fam}.{table}', sensor=sid, own_registers=own_hex, decoded=str(got)[:80],
+                reference=str(refdec.decode(s, bytes.fromhex(own_hex)))[:80])
+
+
 def job_table(j):
     """Whole tables decoded in ONE process, every register holding the same word (so that different sensors see
     identical bytes), sensors taken in table order and in reverse order: a value must depend on nothing but the
@@ -209,8 +219,9 @@ def run(tier, seed, rep):
                     'non-trivial = evaluations whose outcome is not a plain zero/None/empty value',
                sensors=len(jobs), sensors_enumerated_exhaustively=nfull, sensors_per_type=per_type, tables=len(tabs),
                exhaustive=(tier == 'thorough'),
-               samples=[dict(sensor='vpv1', table='ET all_sensors', own='0cfe', reference=332.6),
-                        dict(sensor='eco_mode_1', own='0000173bffecff7f', reference='24/7 charge -20 %')])
+               samples=[sample_case('ET', 'all_sensors', 'vpv1', '0cfe', seed),
+                        sample_case('ET', 'all_sensors_meter', 'meter_e_total_exp', '40490fdb', seed),
+                        sample_case('ES', 'sensors', 'battery_temperature', 'ffff', seed)])
     return dict(level='exploration', coverage=cov,
                 assumptions=['reference decoders written from the sensor class docstrings and tests/test_sensor.py',
                              'day/month texts are compared only for documented bit patterns (bits 0-6 / 0-11)',
